@@ -3,14 +3,10 @@
 import numpy as np
 
 from job_shop_lib import ScheduledOperation
-from job_shop_lib.dispatching import (
-    Dispatcher,
-    DispatcherObserver,
-)
+from job_shop_lib.dispatching import Dispatcher
 from job_shop_lib.dispatching.feature_observers import (
     FeatureObserver,
     FeatureType,
-    RemainingOperationsObserver,
 )
 
 
@@ -69,34 +65,17 @@ class IsCompletedObserver(FeatureObserver):
         )
 
     def initialize_features(self):
-        def _has_same_features(observer: DispatcherObserver) -> bool:
-            if not isinstance(observer, RemainingOperationsObserver):
-                return False
-            return all(
-                feature_type in observer.features
-                for feature_type in remaining_ops_feature_types
-            )
-
         self.set_features_to_zero()
 
-        remaining_ops_feature_types = [
-            feature_type
-            for feature_type in self.features.keys()
-            if feature_type != FeatureType.OPERATIONS
-        ]
-        remaining_ops_observer = self.dispatcher.create_or_get_observer(
-            RemainingOperationsObserver,
-            condition=_has_same_features,
-            feature_types=remaining_ops_feature_types,
-        )
-        if FeatureType.JOBS in self.features:
-            self.remaining_ops_per_job = remaining_ops_observer.features[
-                FeatureType.JOBS
-            ].copy()
-        if FeatureType.MACHINES in self.features:
-            self.remaining_ops_per_machine = remaining_ops_observer.features[
-                FeatureType.MACHINES
-            ].copy()
+        # Count from the dispatcher itself: an observer subscribed after this
+        # one has not been reset yet when this method is called from reset().
+        self.remaining_ops_per_job[:] = 0
+        self.remaining_ops_per_machine[:] = 0
+        for operation in self.dispatcher.unscheduled_operations():
+            if FeatureType.JOBS in self.features:
+                self.remaining_ops_per_job[operation.job_id, 0] += 1
+            if FeatureType.MACHINES in self.features:
+                self.remaining_ops_per_machine[operation.machines, 0] += 1
 
     def reset(self):
         self.initialize_features()
